@@ -48,6 +48,7 @@ class B:
         self.files = []
         self.refs = []
         self.stubs = []
+        self.gate_extra = {}
         self.feats = set()
         self.scopes = []       # (node, path, is_exec, is_module_spec)
 
@@ -209,6 +210,17 @@ def gen_case(ch: Chooser, excl=()):
                 b.refs.append({"scope": [f"{m['name']}:{deep['name']}"], "ifbody": None, "slot": "subparent",
                                "at": deep["name"], "name": sname, "expect": f"{m['name']}:{sname}", "multi": same})
             b.feats.add("submodule" + (":same-name" if same else ""))
+            if ch.bool(1, 3) and "orphan_submodule" not in b.excl:
+                # the parent submodule is declared nowhere in the project (its file is not among the sources):
+                # the reference stays unresolved
+                orphan = {"k": "submodule", "name": b.fresh("orphan"), "ancestor": m["name"], "parent": "nowhere_sub", "uses": [],
+                          "decls": [_var(b.fresh("v"))], "procs": [], "doc": None}
+                b.files.append({"path": f"src/{m['name']}_{orphan['name']}.f90", "form": "free", "units": [orphan], "doc": None})
+                b.refs.append({"scope": [f"{m['name']}:{orphan['name']}"], "ifbody": None, "slot": "subparent",
+                               "at": orphan["name"], "name": "nowhere_sub", "expect": f"{m['name']}:unresolved:nowhere_sub",
+                               "multi": False})
+                b.feats.add("submodule:orphan")
+                b.gate_extra[f"zz_{m['name']}_nowhere_sub.f90"] = f"submodule ({m['name']}) nowhere_sub\nend submodule nowhere_sub\n"
     # references from every scope to every pool name
     proj = {"files": b.files}
     decl_count = {}
@@ -329,7 +341,7 @@ def gen_case(ch: Chooser, excl=()):
         c["expect"] = sorted(set(c["expect"]))
         merged.append(c)
     files, used = render.render_project(proj, ch, features={"comments": False})
-    return {"files": files, "refs": merged, "stub": stub_source(b.stubs), "classes": sorted(b.feats),
+    return {"files": files, "refs": merged, "stub": stub_source(b.stubs), "gate_extra": b.gate_extra, "classes": sorted(b.feats),
             "nontrivial": nontrivial, "order_seed": ch.int(256)}
 
 
